@@ -49,6 +49,9 @@ func runC05(c *Ctx) {
 		checkAtomicOperations(r, p, "atomic/one-section-per-operation", pkg, typ)
 	}
 	// 4. closed only through atomic methods, realm write-once
+	// stored values never alias a caller's or a reader's buffer (shared with C04): without the copies a
+	// reader outside the lock races with writers and an in-place overwrite tears snapshots
+	checkCopyDiscipline(r, p)
 	checkFieldUseDiscipline(r, p, pkg, "mapDB")
 	checkFieldUseDiscipline(r, p, pkg, "batchedMutations")
 }
